@@ -94,6 +94,11 @@ CHECKS["C12"] = dict(engine="ShellCarrier", ref="3 (C12)",
     note="Trusted: TLC; /bin/bash. Readonly variables and user EXIT traps are outside the state classes. State classes are sampled by 2 names / 9 value classes.",
     technique="TLA+ spec of single-session state vs per-process carrier, TLC check + TLC-generated histories run through the real executor and through one real bash session, TLC comparison of every probe")
 
+CHECKS["C13"] = dict(engine="Capture", ref="3 (C13)",
+    text="specs/Capture.tla defines the documented recorded stream Recorded(payload, keep_crlf, strip_ansi) over payload tokens (ordinary byte, CR, LF, ANSI sequence, NUL, non-UTF-8 byte, the literal text of every template placeholder, scrut's internal divider prefix and a complete fake divider) and three (A) machines: the CR LF replacement of newline.rs, the template substitution of bash_runner.rs (expression inserted last) and the divider protocol of the single-script executor (emit / split with unterminated last lines); TLC checks algorithm = reference, 'expression arrives verbatim' and correct splitting on all 3922 cases and enumerates them: every CR/LF/byte sequence up to length 4 (thorough 6) under all 9 keep_crlf x strip_ansi settings, special texts alone and embedded, both streams with every output_stream setting and exit codes {0,1,7,255}, two test cases with an unterminated first payload - each for both executors. Every case is run through the real StatefulExecutor/BashRunner or BashScriptExecutor with printf-built commands (special texts as single-quoted literals, so a rewritten expression changes the bytes); recorded stdout, stderr and exit codes are mapped back to tokens and compared by TLC. Large outputs (100k lines, thorough 2M, CR LF terminated and on both streams at once) run in their own process.",
+    note="Trusted: TLC; bash/printf/yes/head. Known findings: strip_ansi_escaping removes non-ANSI control bytes (third-party stripper); a Cram payload containing the divider prefix aborts execution.",
+    technique="TLA+ spec of recorded stream + CR LF / substitution / divider machines, TLC check and enumeration, commands run through both real executors, TLC comparison of recorded bytes")
+
 NOT_YET = {
 }
 
@@ -148,6 +153,7 @@ def main():
             {"name": "ConfigRoundTrip", "path": "specs/ConfigRoundTrip.tla", "serves_properties": ["C17"], "kind_free_text": "value-class enumeration of configurations and the round-trip predicate; MC_ConfigRoundTrip, ConfigRoundTripTrace"},
             {"name": "Render", "path": "specs/Render.tla", "serves_properties": ["C19"], "kind_free_text": "hunk assembler of the diff renderer composed with DiffAlgo; MC_Render (ShowsAll + GEN), RenderTrace (judgement of real renderings)"},
             {"name": "ShellCarrier", "path": "specs/ShellCarrier.tla", "serves_properties": ["C12"], "kind_free_text": "shell state, operations, reference session and per-process carrier; MC_ShellCarrier (MC + exhaustive/simulated GEN), ShellTrace"},
+            {"name": "Capture", "path": "specs/Capture.tla", "serves_properties": ["C13"], "kind_free_text": "recorded-stream reference, CR LF algorithm, template substitution and divider protocol machines; MC_Capture, CaptureTrace"},
             {"name": "Rules", "path": "specs/Rules.tla", "serves_properties": ["C04"],
              "kind_free_text": "TLA+ reference semantics of the expectation kinds; MC_Rules (enumeration + sanity), RulesTrace (re-evaluation of implementation answers)"},
         ],
